@@ -396,6 +396,14 @@ func (s *Solver) getModel(vars []*Term) map[string]uint64 {
 		nm := smtName(v)
 		idx := strings.Index(text, "("+nm+" ")
 		if idx < 0 {
+			// cvc5 prints simple symbols without the |...| quoting they were declared with
+			if bare := strings.Trim(nm, "|"); bare != nm {
+				nm = bare
+				idx = strings.Index(text, "("+nm+" ")
+			}
+		}
+		if idx < 0 {
+			s.Errors = append(s.Errors, "get-value: no value for "+nm)
 			continue
 		}
 		rest := text[idx+len(nm)+2:]
